@@ -260,6 +260,29 @@ def run(ctx):
         except (RuntimeError, ValueError, SyntaxError) as e:
             ctx.notes.append(f"iterator evaluation failed: {str(e)[-800:]}")
 
+    # ---- thorough only: cross-validate the trusted op spec on the venv's own runtime (1.0.4)
+    emu = None
+    if thorough:
+        import os
+        import subprocess
+        env = {k: v for k, v in os.environ.items() if k not in ("PYTHONPATH", "VERIF_REPO")}
+        try:
+            p = subprocess.run([vlib.PY, str(ctx.dir / "emu_spec.py")], env=env, cwd=str(ctx.scratch), text=True,
+                               stdout=subprocess.PIPE, stderr=subprocess.PIPE, timeout=600)
+            emu = json.loads(p.stdout.strip().split("\n")[-1])
+            want = {"main_neg": "Array index out of bounds", "main_oob": "Array index out of bounds",
+                    "main_alias": "Array element is already borrowed"}
+            bad = [k for k, m in want.items() if not (emu[k][0] == "exc" and m in emu[k][2])]
+            order = [["a", 10], ["b", 11], ["d", 14], ["c", 12], ["c", 13], ["y", 2], ["y", 3], ["y", 4], ["r", 9]]
+            if emu["main_order"] != ["ok", order]:
+                bad.append("main_order")
+            if bad:
+                ctx.report("trusted-spec:" + ",".join(bad), "correspondence",
+                           "the trusted op semantics of Array.v disagrees with the venv runtime (guppylang 1.0.4 + selene)",
+                           {"observed": emu, "disagreeing": bad}, found_input=False)
+        except Exception as e:  # noqa: BLE001   (supporting evidence only: absence is noted, not fatal)
+            ctx.notes.append(f"runtime cross-validation of the op spec did not run: {str(e)[:300]}")
+
     def show(v):
         return json.loads(json.dumps(v))
 
@@ -319,7 +342,7 @@ def run(ctx):
         evaluations=stats["semantic_cases"] + stats["programs"], distinct_nontrivial=stats["semantic_nontrivial"],
         rule="evaluations = abstract-machine runs of emitted sequences (each also run on the model sequence and the Python list spec) + compiled programs; non-trivial = the specification expects a result (valid index, cell present), the rest must panic",
         traces_validated_against_impl=stats["syntactic_equal"], stats=stats, samples=samples,
-        unevaluable_sequences=sorted(unevaluable), iterator_orders_checked=iter_checked, timing=timing, notes=ctx.notes)
+        unevaluable_sequences=sorted(unevaluable), iterator_orders_checked=iter_checked, op_spec_cross_validation_on_venv_runtime=emu, timing=timing, notes=ctx.notes)
     return ctx.finish(LEVEL, cov, ["array length n <= 2^63 and usize is 64 bit",
                                    "HUGR op semantics as written in coq/C19/Array.v (trusted spec)",
                                    "for-loop / comprehension drivers call __next__ until Nothing (C03/C18 territory)"])
